@@ -35,7 +35,7 @@ def parseRegs : Nat → List Nat → Option (List RegSpec × List Nat)
     | _, _ => none
   | _, _ => none
 
-def parseOrd : Nat → Option Ordering
+def parseOrd : Nat → Option WordOrdering
   | 0 => some .big
   | 1 => some .little
   | _ => none
